@@ -214,6 +214,25 @@ def metaops_events(job, rng, out):
             attempt(lambda: claripy.replace(a, l, claripy.BVV(rng.getrandbits(l.length), l.length)))
             attempt(lambda: claripy.replace(a, l, claripy.BVS("q", l.length, explicit_name=True) + 1))
             attempt(lambda: claripy.replace(a, l, l.annotate(an)))
+        # identity rewrites that hand back a LEAF through make_like() of another node (a constant, ...): the leaf's
+        # own metadata must come with it.  The annotated symbol is created without keeping its plain twin alive, so
+        # that the result is a new object and not a hash-cons hit on a correctly built one.
+        Wl = rng.choice([1, 2, 8, 16])
+        wa = claripy.BVS(f"fresh{job.get('seed', 0)}_{i}", Wl, explicit_name=True).annotate(an)
+        ones = claripy.BVV((1 << Wl) - 1, Wl)
+        p_ = claripy.BVS("p", Wl, explicit_name=True)
+        attempt(lambda: (claripy.Concat(p_, ones) & claripy.Concat(p_ + 1, wa))[Wl - 1:0])
+        attempt(lambda: (claripy.Concat(ones, p_) & claripy.Concat(wa, p_ + 1))[2 * Wl - 1:Wl])
+        attempt(lambda: wa & ones)
+        attempt(lambda: ones & wa)
+        attempt(lambda: wa | 0)
+        attempt(lambda: wa ^ 0)
+        attempt(lambda: wa + 0)
+        attempt(lambda: claripy.If(claripy.true(), wa, ones))
+        # set-like VSA operations rebuilt over other operands
+        attempt(lambda: claripy.replace(claripy.union(p_, p_ + 1), p_, claripy.BVS("q", Wl, explicit_name=True)))
+        attempt(lambda: claripy.replace(claripy.union(ones, ones - 1), ones, p_))
+        attempt(lambda: claripy.replace(claripy.intersection(p_, ones), p_, ones - 1))
         attempt(lambda: claripy.simplify(a))
         attempt(lambda: claripy.backends.z3._abstract(claripy.backends.z3.convert(a)))
         attempt(lambda: a.canonicalize()[2])
